@@ -123,6 +123,11 @@ struct Run {
     static void put_view(Out& o, V const& sub, Char const* origin)
     {
         o.tok("ok").num(static_cast<i64>(sub.data() - origin)).num(static_cast<i64>(sub.size()));
+        // a view of absurd length (a wrapped count) is reported, not walked: no generated buffer has 4096 characters
+        if (sub.size() > 4096) {
+            o.tok("unreadable");
+            return;
+        }
         for (std::size_t i = 0; i < sub.size(); ++i) { o.num(static_cast<i64>(sub.data()[i])); }
     }
 
